@@ -47,6 +47,10 @@ Next == MCLoad \/ MCStep
 
 Spec == Init /\ [][Next]_mcvars
 
+\* Once steps are taken, declaration and neighbour order matter only through `order' (variant
+\* "design"): states that differ in nothing else are explored once.  (Not used by the "decl" cfg.)
+MCView == IF n = 0 THEN <<mcvars>> ELSE <<g, wt, order, own, cur, tot, sum, n>>
+
 \* The loader's clauses talk about variables that no step changes (ConfigFrozen), so it is
 \* enough - and much cheaper - to evaluate them on the states before the first step.
 ConfigFrozen == [][phase # "new" => UNCHANGED <<decl, g, wt, accepted, order, nord>>]_mcvars
